@@ -852,7 +852,12 @@ class TdlChannel:
         num_tx_antennas : int
             The number of transmit antennas.
         """
-        self._set_fading_generator_shape((num_rx_antennas, num_tx_antennas))
+        if num_rx_antennas is None and num_tx_antennas is None:
+            # Back to SISO, as documented
+            self._set_fading_generator_shape(None)
+        else:
+            self._set_fading_generator_shape(
+                (num_rx_antennas, num_tx_antennas))
 
     def _set_fading_generator_shape(self, new_shape: Optional[Shape]) -> None:
         """
